@@ -6,10 +6,10 @@ SRC="$1"; PID="$2"; NAME="$3"
 WT=/tmp/confirm-$PID-$NAME
 git -C /repo worktree add -q --detach "$WT" HEAD || exit 2
 cd "$WT"
-res_clean=$(timeout 900 /venv/bin/python "$SRC/demo.py" >/tmp/confirm-$PID-$NAME.clean.log 2>&1; echo $?)
+res_clean=$(PYTHONPATH="$WT" timeout 900 /venv/bin/python "$SRC/demo.py" >/tmp/confirm-$PID-$NAME.clean.log 2>&1; echo $?)
 if ! git apply "$SRC/patch.diff"; then echo "$PID-$NAME: PATCH DOES NOT APPLY"; cd /; git -C /repo worktree remove --force "$WT"; exit 1; fi
-res_mut=$(timeout 900 /venv/bin/python "$SRC/demo.py" >/tmp/confirm-$PID-$NAME.mut.log 2>&1; echo $?)
-tests=$(timeout 1800 /venv/bin/python -m pytest -q -p no:cacheprovider test/ 2>&1 | tail -1)
+res_mut=$(PYTHONPATH="$WT" timeout 900 /venv/bin/python "$SRC/demo.py" >/tmp/confirm-$PID-$NAME.mut.log 2>&1; echo $?)
+tests=$(PYTHONPATH="$WT" timeout 1800 /venv/bin/python -m pytest -q -p no:cacheprovider test/ 2>&1 | tail -1)
 cd /
 git -C /repo worktree remove --force "$WT"
 echo "$PID-$NAME: demo clean exit=$res_clean, demo mutated exit=$res_mut, tests with patch: $tests"
